@@ -23,6 +23,16 @@ def look_scenarios(rng, n):
             op['max_tasks_active'] = rng.choice([1, 2, 3, 4, 6, 10, rng.randint(1, 20)])
         if op['input'] == 'gen' and rng.random() < .5:
             op['iterable_len'] = nn
+        if rng.random() < .3:
+            # the chunk size is DERIVED (from n_splits, from the length, or the fall-back for an unknown length) and larger than an
+            # explicit look-ahead bound
+            op.pop('chunk_size')
+            op['n'] = nn = rng.randint(12, 60)
+            if op.get('iterable_len') is not None:
+                op['iterable_len'] = nn
+            if op['input'] == 'list' or op.get('iterable_len') is not None:
+                op['n_splits'] = rng.choice([1, 2, 3, 4])
+            op['max_tasks_active'] = rng.choice([1, 2, 3])
         op['dur'] = {'kind': 'hash', 'salt': rng.randint(0, 99), 'unit': rng.choice([0.001, 0.01, 0.05])}
         if op['op'] == 'imap_unordered' and rng.random() < .7:
             op['consume_pause'] = {'kind': 'hash', 'salt': rng.randint(0, 99), 'unit': rng.choice([0.01, 0.1, 0.3])}
@@ -41,7 +51,8 @@ def run(chk):
     obs = run_scenarios(chk, 'imap_unordered with counting input and pausing consumer under DetSim', scs, {'C15', 'C03'},
                         nontrivial=lambda sc, o: sc['ops'][0]['n'] >= 4,
                         dist=lambda sc, o: {'bound_vs_chunk': 'default' if sc['ops'][0].get('max_tasks_active') is None else
-                                            ('below' if sc['ops'][0]['max_tasks_active'] < math.ceil(sc['ops'][0]['chunk_size']) else 'at-or-above'),
+                                            ('derived chunk size' if sc['ops'][0].get('chunk_size') is None else
+                                             'below' if sc['ops'][0]['max_tasks_active'] < math.ceil(sc['ops'][0]['chunk_size']) else 'at-or-above'),
                                             'consumer': 'pausing' if sc['ops'][0].get('consume_pause') else 'greedy', 'input': sc['ops'][0]['input']})
     lines, refs = [], []
     for sc, o in zip(scs, obs):
